@@ -584,6 +584,11 @@ def run(chk):
     chk.unit(rtu)
     c08.check_section_grammar(chk, rtu, rule='R05.5', only=('wasmReadMemorySection', 'wasmReadMemorySection#2'))
     chk.floor('R05.5', 6)
+    # R05.6: "new pages zeroed" for a shared memory: memory.grow does not touch its storage, so the allocator must reserve the declared
+    # maximum and hand it out zero-filled in full (allocator rule shared with C06 R06.7)
+    from . import c06 as _c06
+    _c06.check_allocators(chk, rule='R05.6')
+    chk.floor('R05.6', 8)
     chk.floor('R05.1', 23 + 5)
     chk.floor('R05.2', 23 * 6)
     chk.floor('R05.3', 8)
